@@ -17,6 +17,7 @@ import XV.Driver.XmlWf
 import XV.Driver.Facet
 import XV.Driver.Ser
 import XV.Driver.Formatter
+import XV.Driver.Safety
 open XV.Driver
 
 def main (args : List String) : IO UInt32 := do
@@ -54,5 +55,6 @@ def main (args : List String) : IO UInt32 := do
   | ["facetspec"] => lineLoop stdin stdout XV.Driver.Facet.handleSpec; return 0
   | ["ser"] => lineLoop stdin stdout XV.Driver.Ser.handle; return 0
   | ["fmt"] => lineLoop stdin stdout XV.Driver.Formatter.handle; return 0
+  | ["safety"] => lineLoop stdin stdout XV.Driver.Safety.handle; return 0
   | ["utf8spec"] => lineLoop stdin stdout XV.Driver.Utf8.handleSpec; return 0
   | _ => IO.eprintln "usage: xvdriver <area>"; return 2
